@@ -259,7 +259,7 @@ pub fn run(ctx: &mut Ctx) {
             continue;
         }
         let mut r = crate::rng::Rng::new(0xC10C10, "C10-corpus", i as u64);
-        let c = gen_case_c10(&mut r, 64);
+        let c = frozen_case_c10(&mut r, 64);
         eval(ctx, &c, "fixed_corpus", true, true);
     }
     ctx.notes.push(format!("fixed corpus: {} cases derived from a constant seed, identical in every run", ncorpus));
@@ -330,6 +330,55 @@ pub fn gen_case_c10(rng: &mut crate::rng::Rng, max_len: usize) -> EncCase {
         3 => (rng.pick(&cat::CAT[..40]).name.to_string(), 63),
         4 => (inputs::gen_list_spec(rng), inputs::gen_mask(rng) | 1),
         _ => (inputs::gen_list_spec(rng), inputs::gen_mask(rng)),
+    };
+    EncCase { input, list, mask, macros: false, fnc1: false, eci: None, order: 0, prelude: 0, skipdef: false }
+}
+
+// ---- frozen copies used for the fixed corpus only (see gen/frozen.rs) ----
+fn frozen_small_r(rng: &mut crate::rng::Rng, max: usize) -> Vec<u8> {
+    let n = rng.range(1, max);
+    match rng.below(5) {
+        0 => {
+            let k = rng.range(1, 3);
+            let cls: Vec<crate::gen::frozen::Class> = (0..k).map(|_| *rng.pick(&crate::gen::frozen::CORE)).collect();
+            let mean = rng.range(1, 6);
+            let mut v = Vec::new();
+            while v.len() < n {
+                let c = *rng.pick(&cls);
+                for _ in 0..rng.geo(mean) {
+                    v.push(crate::gen::frozen::class_char(rng, c));
+                }
+            }
+            v.truncate(n);
+            v
+        }
+        1 => {
+            let c = *rng.pick(&crate::gen::frozen::CORE);
+            let k = rng.range(1, 8).min(n);
+            let mut v: Vec<u8> = (0..n - k).map(|_| crate::gen::frozen::class_char(rng, c)).collect();
+            v.extend((0..k).map(|_| crate::gen::frozen::class_char(rng, crate::gen::frozen::Class::Digit)));
+            v
+        }
+        _ => {
+            let mut v = crate::gen::frozen::gen_input(rng, max);
+            v.truncate(max);
+            v
+        }
+    }
+}
+
+pub fn frozen_case_c10(rng: &mut crate::rng::Rng, max_len: usize) -> EncCase {
+    let input = match rng.below(10) {
+        0..=6 => frozen_small_r(rng, 40.min(max_len)),
+        7 | 8 => frozen_small_r(rng, 90.min(max_len)),
+        _ => crate::gen::frozen::gen_input(rng, max_len),
+    };
+    let (list, mask) = match rng.below(6) {
+        0 | 1 => ("default".to_string(), 63u8),
+        2 => ("all".to_string(), 63),
+        3 => (rng.pick(&cat::CAT[..40]).name.to_string(), 63),
+        4 => (crate::gen::frozen::gen_list_spec(rng), crate::gen::frozen::gen_mask(rng) | 1),
+        _ => (crate::gen::frozen::gen_list_spec(rng), crate::gen::frozen::gen_mask(rng)),
     };
     EncCase { input, list, mask, macros: false, fnc1: false, eci: None, order: 0, prelude: 0, skipdef: false }
 }
